@@ -24,6 +24,16 @@ MSG = smtpworld.MSG_OK
 NOTTLS = b'GARBAGE-NOT-TLS\r\n'          # sent in place of a ClientHello; OpenSSL reads the 5 byte record header
 
 
+def segs(b, first=1001):
+    """a long run of bytes as segments that coincide with the reads of lib/netio.c when the line buffer
+    is empty (1001 bytes each): the model's read oracle and the harness's agree on whole segments only"""
+    out = []
+    while len(b) > first:
+        out.append(S(b[:first])); b = b[first:]
+    out.append(S(b))
+    return out
+
+
 def lock(lines):
     out = []
     for ln in lines:
@@ -85,7 +95,10 @@ def gen_script(ctx):
                     clear += lock(tail)
                     if not tail and rng.random() < 0.5:
                         clear = clear[:-1]                     # the script ends without a pause: EOF is readable
-                    add(Case('script', clear=clear, hs=['g'] * 3, clean=clean and place != 'after-220'), 'matrix:%s' % place)
+                    # what OpenSSL takes of the bytes that arrive in place of a ClientHello: the 5 byte record
+                    # header, and the announced fragment if the header looks like a TLS record
+                    eat = 10 if (suf[:1] == b'\x16' and place == 'after-220') else 5
+                    add(Case('script', clear=clear, hs=['g%d' % eat, 'g', 'g'], clean=clean and place != 'after-220'), 'matrix:%s' % place)
     # lone STARTTLS, every history, every certificate kind
     for hn, hist in HISTORIES.items():
         for cert in W.CERT_KINDS:
@@ -139,8 +152,18 @@ def gen_script(ctx):
         for _ in range(rng.randrange(1, 6)):
             lines.append(rng.choice(junk) if rng.random() < 0.55 else rng.choice([STLS, NOOP, QUIT, VRFY, STLS + NOOP]))
         clear = [WT]
+        prev = CR
         for ln in lines:
-            clear.append(S(ln))
+            if len(ln) > 500:
+                # long runs only where the line buffer is empty: behind a complete line and a pause
+                if not prev.endswith(b'\n') or b'\n' in prev[:-1].replace(CR, b''):
+                    continue
+                if clear[-1] != WT:
+                    clear.append(WT)
+                clear += segs(ln)
+            else:
+                clear.append(S(ln))
+            prev = ln
             if rng.random() < 0.6:
                 clear.append(WT)
         if rng.random() < 0.7:
@@ -152,7 +175,7 @@ def gen_script(ctx):
             for suf in (b'', NOOP):
                 if quick and rng.random() < 0.4:
                     continue
-                add(Case('script', clear=[WT] + lock([EHLO]) + [S(b'y' * fill + sep + STLS + suf), WT] + lock([NOTTLS, QUIT]), hs=['g'] * 3, clean=False), 'threshold')
+                add(Case('script', clear=[WT] + lock([EHLO]) + segs(b'y' * fill + sep + STLS + suf) + [WT] + lock([NOTTLS, QUIT]), hs=['g'] * 3, clean=False), 'threshold')
     return cases
 
 
@@ -172,6 +195,8 @@ def gen_tls(ctx):
     # the CVE-2011-0411 pattern: clear text behind STARTTLS, then a client that goes on with the handshake
     for hn in ('ehlo', 'ehlo-mail-rcpt', 'ehlo-tx-rset', 'helo-ehlo'):
         for suf in SUFFIXES:
+            if suf.endswith(DATA):
+                suf = suf[:-len(DATA)]       # a client that waits for the reply to its message would meet the server's time-out
             for place in ('same', 'next'):
                 if quick and rng.random() < 0.5:
                     continue
@@ -244,8 +269,16 @@ def compare_script(case, o, evs):
     if me != o['exit']:
         return 'exit: impl=%s model=%s' % (o['exit'], me)
     mh = [e['handoff'] for e in evs if e['handoff'] != '-']
-    if mh != o['handoffs']:
-        return 'hand-offs: impl=%s model=%s' % (o['handoffs'], mh)
+    ih = [h for h in o['handoffs'] if h]           # an empty envelope: qmail-queue was started, the transaction never completed
+    if mh != ih:
+        return 'hand-offs: impl=%s model=%s' % (ih, mh)
+    # byte offsets of the script at which the client pauses (or stops): the server can only block there with nothing pending
+    pauses, pos = set(), 0
+    for k, it in enumerate(case.clear):
+        if it[0] == 'S':
+            pos += len(it[1])
+            if k + 1 >= len(case.clear) or case.clear[k + 1][0] == 'W':
+                pauses.add(pos)
     j = -1
     for e in evs:
         if not e['codes']:
@@ -257,7 +290,7 @@ def compare_script(case, o, evs):
             for k in STATE_KEYS:
                 if got[k] != e['st'][k]:
                     return 'state %s after reply %d: impl=%s model=%s' % (k, j, got[k], e['st'][k])
-            if str(g['consumed']) != e['st']['cc']:
+            if int(e['st']['cc']) in pauses and e['st']['innlen'] == '0' and str(g['consumed']) != e['st']['cc']:
                 return 'bytes consumed when blocking after reply %d: impl=%s model=%s' % (j, g['consumed'], e['st']['cc'])
     return None
 
@@ -278,8 +311,9 @@ def compare_tls(case, r, evs):
     if me != r['exit']:
         return 'exit: impl=%s model=%s' % (r['exit'], me)
     mh = [e['handoff'] for e in evs if e['handoff'] != '-']
-    if mh != r['handoffs']:
-        return 'hand-offs: impl=%s model=%s' % (r['handoffs'], mh)
+    ih = [h for h in r['handoffs'] if h]
+    if mh != ih:
+        return 'hand-offs: impl=%s model=%s' % (ih, mh)
     # the state when the server last blocked = the model's state before the event that ended the session
     if r['states'] and len(evs) >= 2:
         got = state_of_t(r['states'][-1])
